@@ -225,9 +225,60 @@ fn fmt_tables() -> String {
     format!("ok({})", if n > 0 { "rendered" } else { "nothing" })
 }
 
+/// every public constant of the bounded number types, by name
+fn consts() -> String {
+    let mut o: Vec<String> = Vec::new();
+    macro_rules! c {
+        ($name:expr, $v:expr) => {
+            o.push(format!("{}={}", $name, $v));
+        };
+    }
+    c!("Qrv::ZERO", Qrv::ZERO.value());
+    c!("Qrv::MAX", Qrv::MAX.value());
+    c!("Qrv::MAX_U8", Qrv::MAX_U8);
+    for (i, q) in Qrv::VALUES.iter().enumerate() {
+        c!(format!("Qrv::VALUES[{}]", i), q.value());
+    }
+    c!("VlanPcp::ZERO", VlanPcp::ZERO.value());
+    c!("VlanPcp::MAX_U8", VlanPcp::MAX_U8);
+    c!("VlanId::ZERO", VlanId::ZERO.value());
+    c!("VlanId::MAX_U16", VlanId::MAX_U16);
+    c!("IpDscp::ZERO", IpDscp::ZERO.value());
+    c!("IpDscp::MAX", IpDscp::MAX.value());
+    c!("IpDscp::MAX_U8", IpDscp::MAX_U8);
+    for (n, v) in [
+        ("CS0", IpDscp::CS0), ("CS1", IpDscp::CS1), ("CS2", IpDscp::CS2), ("CS3", IpDscp::CS3), ("CS4", IpDscp::CS4),
+        ("CS5", IpDscp::CS5), ("CS6", IpDscp::CS6), ("CS7", IpDscp::CS7), ("AF11", IpDscp::AF11), ("AF12", IpDscp::AF12),
+        ("AF13", IpDscp::AF13), ("AF21", IpDscp::AF21), ("AF22", IpDscp::AF22), ("AF23", IpDscp::AF23), ("AF31", IpDscp::AF31),
+        ("AF32", IpDscp::AF32), ("AF33", IpDscp::AF33), ("AF41", IpDscp::AF41), ("AF42", IpDscp::AF42), ("AF43", IpDscp::AF43),
+        ("EF", IpDscp::EF), ("VOICE_ADMIT", IpDscp::VOICE_ADMIT), ("LOWER_EFFORT", IpDscp::LOWER_EFFORT),
+    ] {
+        c!(format!("IpDscp::{}", n), v.value());
+    }
+    c!("IpEcn::ZERO", IpEcn::ZERO.value());
+    c!("IpEcn::ONE", IpEcn::ONE.value());
+    c!("IpEcn::TWO", IpEcn::TWO.value());
+    c!("IpEcn::THREE", IpEcn::THREE.value());
+    c!("IpEcn::MAX_U8", IpEcn::MAX_U8);
+    c!("IpEcn::NotEct", IpEcn::NotEct.value());
+    c!("IpEcn::Ect1", IpEcn::Ect1.value());
+    c!("IpEcn::Ect0", IpEcn::Ect0.value());
+    c!("IpEcn::CongestionExperienced", IpEcn::CongestionExperienced.value());
+    c!("IpFragOffset::ZERO", IpFragOffset::ZERO.value());
+    c!("IpFragOffset::MAX_U16", IpFragOffset::MAX_U16);
+    c!("Ipv6FlowLabel::ZERO", Ipv6FlowLabel::ZERO.value());
+    c!("Ipv6FlowLabel::MAX_U32", Ipv6FlowLabel::MAX_U32);
+    c!("MacsecAn::ZERO", MacsecAn::ZERO.value());
+    c!("MacsecAn::MAX_U8", MacsecAn::MAX_U8);
+    c!("MacsecShortLen::ZERO", MacsecShortLen::ZERO.value());
+    c!("MacsecShortLen::MAX_U8", MacsecShortLen::MAX_U8);
+    o.join(",")
+}
+
 pub fn run(op: &str, a: &[&str]) -> Option<String> {
     Some(match (op, a) {
         ("impl.bf.fmt_tables", []) => fmt_tables(),
+        ("impl.bf.consts", []) => consts(),
         ("bf.try_new", [t, v]) => try_new(t, v)?,
         ("bf.try_from", [t, v]) => try_from(t, v)?,
         ("bf.sl_from_len", [n]) => MacsecShortLen::from_len(num::<usize>(n)?)
